@@ -109,7 +109,8 @@ func verdict(b lexh.BuildCase, r lexh.BuildResult, strict bool) (clause, want st
 	if !r.Served {
 		return "path-is-a-file-the-build-read", "one of " + strings.Join(sortedNames(b.Files), ",")
 	}
-	data, ok := b.Files[strings.TrimPrefix(r.Path, "/")]
+	// the path is the NAME of the file as the file system knows it (an io/fs name: no leading slash, no "..")
+	data, ok := b.Files[r.Path]
 	if !ok {
 		return "path-is-a-file-the-build-read", "one of " + strings.Join(sortedNames(b.Files), ",")
 	}
@@ -230,7 +231,7 @@ func class(msg string) string {
 
 func run(c *hx.Ctx) error {
 	res := c.Res
-	res.Rule = "build inputs: byte-level and token-level mutants (lexh.Mutate: delimiter/keyword/tag fragments, token delete/duplicate/swap/replace, byte flips, truncations, splices, line-ending swaps, context wraps) of the template and program corpus of /repo and of multi-file template trees (extends/import/render), in all six formats; a case is non-trivial when the build returns a *BuildError (the oracle then checks path, offsets, line and column); distinct by files. Newline stream (newlines.go): slot (the lexical state the hole is in: ~130 states of templates in all formats and of programs) x escape before the terminator (none, a lone backslash, and in string states every escape sequence) x terminator (LF, CR LF, CR; VT, FF, NEL, U+2028, U+2029 as decoys) x 1 or 2 repetitions x probe (undefined identifier, stray parenthesis, unknown escape, if without condition, none) x place (inside the state, after it, next line) x role (built file, rendered file); quick: the core sub-matrix plus one in twelve of the rest, thorough: all. Forms stream (lexh.Forms, shared with C04): every statement and declaration form x modifiers x file roles (extending, extended, imported, rendered, macro bodies with a format, imported packages of a module); quick: one in two of the multi-file cases, one in six of the others. Class probes (classes.go): inputs drawn around the cause of each finding class, with the prediction whether the oracle fails (precision recorded as class-precision/<id>/…). Lexer inputs for the position correspondence and the token oracle: the same single-file mutants and every source of the newline stream."
+	res.Rule = "build inputs: byte-level and token-level mutants (lexh.Mutate: delimiter/keyword/tag fragments, token delete/duplicate/swap/replace, byte flips, truncations, splices, line-ending swaps, context wraps) of the template and program corpus of /repo and of multi-file template trees (extends/import/render), in all six formats; a case is non-trivial when the build returns a *BuildError (the oracle then checks path, offsets, line and column); distinct by files. Newline stream (newlines.go): slot (the lexical state the hole is in: ~130 states of templates in all formats and of programs) x escape before the terminator (none, a lone backslash, and in string states every escape sequence) x terminator (LF, CR LF, CR; VT, FF, NEL, U+2028, U+2029 as decoys) x 1 or 2 repetitions x probe (undefined identifier, stray parenthesis, unknown escape, if without condition, none) x place (inside the state, after it, next line) x role (built file, rendered file); quick: the core sub-matrix plus one in twelve of the rest, thorough: all. Forms stream (lexh.Forms, shared with C04): every statement and declaration form x modifiers x file roles (extending, extended, imported, rendered, macro bodies with a format, imported packages of a module); quick: one in two of the multi-file cases, one in six of the others. Path-spelling stream (pathspell.go): template trees whose extends/import/render references are spelled with a leading slash or relative to the referring file (chains of 0 to 2 links x directory of the built file (depth 0-2) x directory of each target (same, sub-directory, parent, root, another top-level directory) x {% %} or {%% %%} forms x distinct or equal base names x a decoy file where the written path points from the root) x an error of every phase (lexer, parser, type checker: mismatched types and undefined, scopes, emitter limit, none) in every file of the chain; chains of at most one link complete (names and decoy alternating in quick), chains of two links sampled. The path of a build error must be exactly a name the file system opened. Class probes (classes.go): inputs drawn around the cause of each finding class, with the prediction whether the oracle fails (precision recorded as class-precision/<id>/…). Lexer inputs for the position correspondence and the token oracle: the same single-file mutants and every source of the newline stream."
 	corpus := lexh.LoadCorpus(c.N(4000, 40000), c.N(4000, 40000))
 	if len(corpus.Templates) < 50 {
 		return fmt.Errorf("corpus too small (%d templates): is VERIF_REPO right?", len(corpus.Templates))
@@ -376,6 +377,7 @@ func run(c *hx.Ctx) error {
 	// a line terminator of every kind in every lexical state, followed by a position probe (newlines.go)
 	origin := map[string]string{} // build line / lexer line -> the point of the matrix it came from
 	seenLex := map[string]bool{}
+	psControls := map[string]bool{} // trees of the path-spelling stream without an error: they build
 	for _, n := range newlineMatrix(r, !c.Quick()) {
 		builds = append(builds, n.build)
 		origin[n.build.Line()] = "newline stream: " + n.label()
@@ -388,6 +390,18 @@ func run(c *hx.Ctx) error {
 		res.Hist("newline-stream/term-" + n.term)
 		res.Hist("newline-stream/probe-" + n.probe + "-" + n.place)
 		res.Hist("newline-stream/role-" + n.role)
+	}
+	// file references that are not spelled as the plain path from the root x an error of every phase in a file of
+	// every role (pathspell.go)
+	for _, pc := range pathSpellMatrix(proto.NewRand(c.R.U64()^0x7061746873), !c.Quick(), c.N(2500, 60000)) {
+		builds = append(builds, pc.build)
+		origin[pc.build.Line()] = "path-spelling stream: " + pc.label()
+		res.Hist("pathspell-stream")
+		res.Hist("pathspell-stream/phase-" + pc.pt.phase)
+		res.Hist(fmt.Sprintf("pathspell-stream/links-%d", len(pc.pt.links)))
+		if pc.pt.phase == "none" {
+			psControls[pc.build.Line()] = true
+		}
 	}
 	// every statement and declaration form x modifiers x file roles (lexh.Forms, shared with C04): the build errors
 	// of files that extend, import and render other files, of macro bodies with a format, of imported packages
@@ -440,6 +454,13 @@ func run(c *hx.Ctx) error {
 		br := lexh.ParseBuildResult(bans[i])
 		res.Count(b.Key(), br.Status == "builderror")
 		res.Hist("status-" + strings.Fields(br.Status + " x")[0])
+		if o := origin[blines[i]]; strings.HasPrefix(o, "path-spelling") {
+			res.Hist("pathspell-stream/status-" + strings.Fields(br.Status + " x")[0])
+			if psControls[blines[i]] && br.Status != "ok" {
+				res.Hist("pathspell-stream/control-does-not-build")
+				res.Notes = append(res.Notes, fmt.Sprintf("path-spelling stream: a tree without an error does not build (%s %s: %s): %s", br.Status, br.Path, br.Msg, o))
+			}
+		}
 		if br.Status == "builderror" {
 			if br.Syntax {
 				res.Hist("builderror-syntax")
